@@ -31,6 +31,7 @@
 From Coq Require Import NArith List.
 From Qv Require Import SeqModel LedgerModel LedgerProofs LedgerProofsArray LedgerProofsString LedgerProofsStream LedgerProofsTop.
 From Qv Require Import LedgerValueModel LedgerProofsValue LedgerProofsValueOps LedgerProofsValueTop.
+From Qv Require Import LedgerNestedModel LedgerProofsNested.
 Import ListNotations.
 
 (* ---- all histories from the empty pool: the run succeeds (no release of a dead block, no access to one),
@@ -141,3 +142,32 @@ Print Assumptions c16_value_absorbing_change.
 Theorem c16_value_release_dead_is_error : forall h b, live h b = false -> vfree h b = Error UAF.
 Proof. exact vfree_dead_is_error. Qed.
 Print Assumptions c16_value_release_dead_is_error.
+
+(* ================= phase 3: Array<Node> with nested Array<Node> (cpp/drv_nested.cpp, D52) ================= *)
+(* coq/LedgerNestedModel.v: the element block is explicit -- the record of a[i].kids lies in a's element block, a
+   reference to it is usable only while that block is live ([holder], check_live = Error UAF through a dangling
+   reference); growing = new block, bitwise transfer of the records, release of the old block.  Operations in the
+   order of the current code: d += Node, d = Move(s), d = s, d += s, d += Move(s) with s anywhere (in particular
+   inside d: a = Move(a[i].kids), a = a[i].kids, a += a[i].kids, a += Move(a[i].kids), a = Move(a[i].kids[j].kids)). *)
+
+(* ---- every history from the empty array: no dangling read, no release of a dead block, the ledger holds,
+        destruction leaves no live block ---- *)
+Theorem c16_nested_ledger : forall ops : list nop,
+  exists st st', nrun ops nstate0 = Ok st /\ vledger st /\ destroy_all_values st = Ok st' /\ live_ids (fst st') = [].
+Proof. exact nested_ledger. Qed.
+Print Assumptions c16_nested_ledger.
+
+(* ---- per operation, from every ledger state ---- *)
+Theorem c16_nested_step : forall st op, vledger st ->
+  exists st', nstep st op = Ok st' /\ vledger st' /\ nxt (fst st) <= nxt (fst st').
+Proof. exact nstep_ledger. Qed.
+Print Assumptions c16_nested_step.
+
+(* ---- D52 as a class: if the source record lies in the destination's element block and the append reallocates,
+        the order before the repair (grow first, then read the source record) reads a released block ---- *)
+Theorem c16_nested_d52_resize_first_is_uaf : forall h tree d s c src,
+  vledger (h, tree) -> arr_at tree d = Some c -> arr_at tree s = Some src ->
+  vown c <> [] -> holder tree s = vown c ->
+  append_copy_resize_first (h, tree) d s true = Error UAF /\ append_move_resize_first (h, tree) d s true = Error UAF.
+Proof. exact d52_resize_first_is_uaf. Qed.
+Print Assumptions c16_nested_d52_resize_first_is_uaf.
